@@ -333,4 +333,88 @@ def encRawP (O : Oracles) (ms : List InMsg) : List Bytes := ms.flatMap (msgLines
 /-- `InboundMessagesToRawPanelASCIIstrings` as a total function -/
 def encIn (O : Oracles) (ms : List InMsg) : List Bytes := (encRawP O ms).map Strip.singleLine
 
+/-! ## the proto definitions this model was written against
+
+`Message.field` for every field reachable from `InboundMessage` (ibeam_rawpanel/*.pb.go).  `protoFieldsRead`: the fields
+the encoder model reads (all of `MsgIn`'s types, one structure field each).  `protoFieldsOpaque`: the sub-tree under
+`HWCState.Processors`, which has no ASCII form of its own: the encoder writes the JSON text of the whole state
+(`State.processors`, supplied by the harness), outside the ASCII-representable domain.  No field of an inbound message is
+ignored unconditionally; which fields are read only under a condition is stated by `carried` below
+(`C01.enc_ignores_unread`).  The harness prints the names from the real protobuf descriptors (`ein.fields` record); the
+driver compares them with these two lists, so a field added to the proto definitions shows as a disagreement. -/
+
+def protoFieldsRead : List String :=
+  [
+   "InboundMessage.FlowMessage", "InboundMessage.Command", "Command.ActivatePanel", "Command.SendPanelInfo",
+   "Command.SendPanelTopology", "Command.SendRegisters", "Command.ReportHWCavailability",
+   "Command.SendBurninProfile", "Command.SendCalibrationProfile", "Command.SendNetworkConfig",
+   "Command.SetNetworkConfig", "NetworkConfig.dhcp", "NetworkConfig.address", "NetworkConfig.netmask",
+   "NetworkConfig.gateway", "NetworkConfig.first_dns", "NetworkConfig.second_dns", "NetworkConfig.no_default_route",
+   "Command.ClearAll", "Command.ClearLEDs", "Command.ClearDisplays", "Command.WakeUp", "Command.GetSleepTimeout",
+   "Command.SetSleepTimeout", "SleepTimeout.Value", "Command.SetSleepMode", "SleepMode.Mode",
+   "Command.SetSleepScreenSaver", "SleepScreenSaver.Type", "Command.SetWebserverEnabled", "WebserverState.Enabled",
+   "Command.PanelBrightness", "Brightness.OLEDs", "Brightness.LEDs", "Command.SetHeartBeatTimer",
+   "HeartBeatTimer.Value", "Command.GetConnections", "Command.SetDimmedGain", "DimmedGain.Value",
+   "Command.GetRunTimeStats", "Command.PublishSystemStat", "PublishSystemStat.PeriodSec", "Command.LoadCPU",
+   "LoadCPU.Level", "Command.Reboot", "Command.JSONconfig", "JSONconfig.Outbound", "Command.SetCalibrationProfile",
+   "CalibrationProfile.Json", "Command.SimulateEnvironmentalHealth", "Environment.RunMode", "InboundMessage.States",
+   "HWCState.HWCIDs", "HWCState.HWCMode", "HWCMode.State", "HWCMode.Output", "HWCMode.BlinkPattern",
+   "HWCState.HWCColor", "HWCColor.ColorRGB", "ColorRGB.Red", "ColorRGB.Green", "ColorRGB.Blue",
+   "HWCColor.ColorIndex", "ColorIndex.Index", "HWCState.HWCExtended", "HWCExtended.Interpretation",
+   "HWCExtended.Value", "HWCState.HWCText", "HWCText.IntegerValue", "HWCText.Formatting", "HWCText.StateIcon",
+   "HWCText.ModifierIcon", "HWCText.Title", "HWCText.SolidHeaderBar", "HWCText.Textline1", "HWCText.Textline2",
+   "HWCText.IntegerValue2", "HWCText.PairMode", "HWCText.Scale", "ScaleM.ScaleType", "ScaleM.RangeLow",
+   "ScaleM.RangeHigh", "ScaleM.LimitLow", "ScaleM.LimitHigh", "HWCText.TextStyling", "TextStyle.TitleFont",
+   "Font.FontFace", "Font.TextHeight", "Font.TextWidth", "TextStyle.TextFont", "TextStyle.FixedWidth",
+   "TextStyle.TitleBarPadding", "TextStyle.ExtraCharacterSpacing", "TextStyle.UnformattedFontSize",
+   "HWCText.Inverted", "HWCText.PixelColor", "Color.ColorRGB", "Color.ColorIndex", "HWCText.BackgroundColor",
+   "HWCState.HWCGfx", "HWCGfx.ImageType", "HWCGfx.W", "HWCGfx.H", "HWCGfx.XYoffset", "HWCGfx.X", "HWCGfx.Y",
+   "HWCGfx.ImageData", "HWCState.PublishRawADCValues", "PublishRawADCValues.Enabled", "HWCState.Processors",
+   "InboundMessage.Registers", "Register.Reg", "Register.Id", "Register.Value" ]
+
+def protoFieldsOpaque : List String :=
+  [
+   "Processors.GfxConv", "ProcGfxConverter.ImageType", "ProcGfxConverter.W", "ProcGfxConverter.H",
+   "ProcGfxConverter.ImageData", "ProcGfxConverter.Scaling", "ProcGfxConverter.Filters", "Processors.AudioMeter",
+   "ProcAudioMeter.MeterType", "ProcAudioMeter.W", "ProcAudioMeter.H", "ProcAudioMeter.Title", "ProcAudioMeter.Mono",
+   "ProcAudioMeter.RangeMapping", "ProcAudioMeter.RMYAxis", "ProcAudioMeter.Data1", "ProcAudioMeter.Data2",
+   "ProcAudioMeter.Peak1", "ProcAudioMeter.Peak2", "Processors.TextToGraphics", "ProcTextToGraphics.W",
+   "ProcTextToGraphics.H", "ProcTextToGraphics.Border", "ProcTextToGraphics.Shrink", "Processors.StrengthMeter",
+   "ProcStrength.W", "ProcStrength.H", "ProcStrength.Title", "ProcStrength.ValueString", "ProcStrength.RangeMapping",
+   "ProcStrength.RMYAxis", "ProcStrength.Data1", "Processors.Test", "ProcTest.W", "ProcTest.H", "Processors.UniText",
+   "ProcUniText.W", "ProcUniText.H", "ProcUniText.Title", "ProcUniText.SolidHeaderBar", "ProcUniText.Textline1",
+   "ProcUniText.Textline2" ]
+
+/-! ## fields the encoder reads only under a condition
+
+`carried m` puts the default value into every field of `m` that `encIn` does not read given the other fields:
+the colour index next to an RGB colour, X / Y of an image without the offset flag, everything of a scale without a
+positive type, the integer value of a text with formatting 7, 10 or 11 and the unformatted font size of any other, the
+content of a register of unknown kind. -/
+
+def carriedColor (c : Color) : Color := match c.rgb with | some _ => { c with index := none } | none => c
+
+def carriedGfx (g : Gfx) : Gfx := if g.xyOffset then g else { g with x := 0, y := 0 }
+
+def carriedScale (s : Scale) : Scale := if s.scaleType > 0 then s else {}
+
+def carriedStyle (fmt : Int) (ts : TextStyle) : TextStyle :=
+  if isFmt fmt [10, 11] then ts else { ts with unformattedFontSize := 0 }
+
+def carriedText (t : Text) : Text :=
+  { t with integerValue := if isFmt t.formatting [7, 10, 11] then 0 else t.integerValue
+           scale := t.scale.map carriedScale
+           textStyling := t.textStyling.map (carriedStyle t.formatting)
+           pixelColor := t.pixelColor.map carriedColor
+           backgroundColor := t.backgroundColor.map carriedColor }
+
+def carriedState (s : State) : State :=
+  { s with color := s.color.map carriedColor, text := s.text.map carriedText, gfx := s.gfx.map carriedGfx }
+
+def carriedReg (r : Register) : Register :=
+  if r.reg = 0 ∨ r.reg = 1 ∨ r.reg = 2 ∨ r.reg = 3 then r else { r with id := [], value := 0 }
+
+def carried (m : InMsg) : InMsg :=
+  { m with states := m.states.map carriedState, registers := m.registers.map carriedReg }
+
 end RawPanelVerif.Model.In
